@@ -43,10 +43,12 @@ type Session struct {
 	Queue   [][]string
 	Aborted bool // a command was rejected while queueing: EXEC must reply EXECABORT
 	Watches map[watchRef]int
+	// MissingAtWatch records the watched keys that did not exist when they were first watched
+	MissingAtWatch map[watchRef]bool
 }
 
 func NewSession(id int) *Session {
-	return &Session{ID: id, Proto: 2, Watches: map[watchRef]int{}}
+	return &Session{ID: id, Proto: 2, Watches: map[watchRef]int{}, MissingAtWatch: map[watchRef]bool{}}
 }
 
 // Exp kinds for nested expectations
@@ -273,6 +275,40 @@ func (s *Server) execOne(all []*Session, se *Session, argv []string, tm Time, in
 			return arityErr()
 		}
 		return BulkE(argv[1])
+	case "CLIENT":
+		if len(argv) >= 2 {
+			switch up(argv[1]) {
+			case "SETNAME":
+				if len(argv) != 3 {
+					return arityErr()
+				}
+				for _, ch := range []byte(argv[2]) {
+					if ch < '!' || ch > '~' {
+						return Any("client names with blanks or control characters")
+					}
+				}
+				se.Name = argv[2]
+				return OK()
+			case "GETNAME":
+				if len(argv) != 2 {
+					return arityErr()
+				}
+				if se.Name == "" {
+					return NilE()
+				}
+				return BulkE(se.Name)
+			}
+		}
+		return Any("CLIENT subcommand not modelled")
+	case "HELLO":
+		if len(argv) == 1 {
+			return helloExp(se.Proto)
+		}
+		if len(argv) == 2 && (argv[1] == "2" || argv[1] == "3") {
+			se.Proto = int(argv[1][0] - '0')
+			return helloExp(se.Proto)
+		}
+		return Any("HELLO with other arguments is checked by C15")
 	case "SELECT":
 		if len(argv) != 2 {
 			return arityErr()
@@ -367,7 +403,7 @@ func (s *Server) Exec(all []*Session, se *Session, argv []string, tm Time) Exp {
 			return ErrE("ERR")
 		}
 		se.InMulti, se.Queue, se.Aborted = false, nil, false
-		se.Watches = map[watchRef]int{}
+		se.Watches, se.MissingAtWatch = map[watchRef]int{}, map[watchRef]bool{}
 		return OK()
 	case "WATCH":
 		if len(argv) < 2 {
@@ -381,6 +417,7 @@ func (s *Server) Exec(all []*Session, se *Session, argv []string, tm Time) Exp {
 			w := watchRef{se.DB, k}
 			if _, ok := se.Watches[w]; !ok {
 				se.Watches[w] = wClean
+				se.MissingAtWatch[w] = s.DBs[se.DB].Keys[k] == nil
 			}
 		}
 		return OK()
@@ -393,7 +430,7 @@ func (s *Server) Exec(all []*Session, se *Session, argv []string, tm Time) Exp {
 			se.Queue = append(se.Queue, argv)
 			return Val(kit.Simple("QUEUED"))
 		}
-		se.Watches = map[watchRef]int{}
+		se.Watches, se.MissingAtWatch = map[watchRef]int{}, map[watchRef]bool{}
 		return OK()
 	case "EXEC":
 		if len(argv) != 1 {
@@ -411,7 +448,7 @@ func (s *Server) Exec(all []*Session, se *Session, argv []string, tm Time) Exp {
 			}
 		}
 		se.InMulti, se.Queue, se.Aborted = false, nil, false
-		se.Watches = map[watchRef]int{}
+		se.Watches, se.MissingAtWatch = map[watchRef]int{}, map[watchRef]bool{}
 		if aborted {
 			return ErrE("EXECABORT")
 		}
@@ -439,10 +476,37 @@ func (s *Server) Exec(all []*Session, se *Session, argv []string, tm Time) Exp {
 		if rej {
 			return s.rejected(se)
 		}
+		if name == "SELECT" {
+			if _, ok := parseInt(argv[1]); !ok {
+				return Any("argument type errors are found at queue time by the emulator's grammar parser, at EXEC time by Redis")
+			}
+		}
 		se.Queue = append(se.Queue, argv)
 		return Val(kit.Simple("QUEUED"))
 	}
 	return s.execOne(all, se, argv, tm, false)
+}
+
+// helloExp: the HELLO reply is a map (flat array under RESP2) whose "proto" entry names the protocol in force.
+func helloExp(proto int) Exp {
+	return Pred(func(v kit.Value) error {
+		if proto == 3 && v.K != kit.KMap {
+			return fmt.Errorf("HELLO reply under RESP3 must be a map")
+		}
+		if proto == 2 && v.K != kit.KArr {
+			return fmt.Errorf("HELLO reply under RESP2 must be a flat array")
+		}
+		c := v.Canon()
+		for i := 0; i+1 < len(c.A); i += 2 {
+			if c.A[i].S == "proto" {
+				if c.A[i+1].K != kit.KInt || c.A[i+1].I != int64(proto) {
+					return fmt.Errorf("HELLO reports proto %s, expected %d", c.A[i+1], proto)
+				}
+				return nil
+			}
+		}
+		return fmt.Errorf("HELLO reply has no proto entry")
+	})
 }
 
 func (s *Server) rejected(se *Session) Exp {
@@ -468,6 +532,10 @@ func (s *Server) WouldBeAny(all []*Session, se *Session, argv []string, tm Time)
 		c.Watches = map[watchRef]int{}
 		for k, v := range x.Watches {
 			c.Watches[k] = v
+		}
+		c.MissingAtWatch = map[watchRef]bool{}
+		for k, v := range x.MissingAtWatch {
+			c.MissingAtWatch[k] = v
 		}
 		call[i] = &c
 		if x == se {
@@ -502,4 +570,25 @@ func (e Exp) matchExec(got kit.Value) error {
 		}
 	}
 	return nil
+}
+
+// AbortOnlyByVanishedKeys reports whether an EXEC now must abort solely because of watched keys that
+// did not exist when they were watched and do not exist now (they were created and removed again in
+// between) - the shape of known finding KF-C10-ABA.
+func (s *Server) AbortOnlyByVanishedKeys(se *Session) bool {
+	if !se.InMulti || se.Aborted {
+		return false
+	}
+	aba := false
+	for w, level := range se.Watches {
+		if level != wMust {
+			continue
+		}
+		if se.MissingAtWatch[w] && s.DBs[w.db].Keys[w.key] == nil {
+			aba = true
+		} else {
+			return false
+		}
+	}
+	return aba
 }
